@@ -627,6 +627,7 @@ func (x *Exec) ownStateCall(s *State, fr *Frame, fn *types.Func, sig *types.Sign
 func (x *Exec) tryInline(s *State, fr *Frame, fn *types.Func, sig *types.Signature, recv Value, args []Value, call *ast.CallExpr) (v Value, ok bool) {
 	nObl := len(x.obls)
 	nErr := len(x.errs)
+	spec0, noObl0, entry0 := x.spec, x.noObl, x.entry
 	t := s.fork()
 	defer func() {
 		if r := recover(); r != nil {
@@ -636,6 +637,8 @@ func (x *Exec) tryInline(s *State, fr *Frame, fn *types.Func, sig *types.Signatu
 			}
 			x.obls = x.obls[:nObl]
 			x.errs = x.errs[:nErr]
+			// whatever the unwinding skipped: back to the mode we were in
+			x.spec, x.noObl, x.entry = spec0, noObl0, entry0
 			x.note("abstracted", fmt.Sprintf("%s could not be inlined (%s)", fullName(fn), u.msg))
 			v, ok = nil, false
 		}
@@ -981,6 +984,23 @@ func (x *Exec) modularCall(s *State, fr *Frame, c *Contract, recv Value, args []
 	} else {
 		res = &TupleV{V: vals}
 	}
+	// ghost variables of the callee that its postconditions mention: the callee's own
+	// proof exhibits their final values; to the caller they are some values
+	// (existentially quantified: fresh symbols)
+	for _, g := range c.Ghost {
+		gv := x.fresh(s, g.Var.Type(), "ghost$"+g.Name)
+		x.assumeWF(s, g.Var.Type(), gv)
+		bind(g.Var, gv)
+	}
+	defer func() {
+		for _, g := range c.Ghost {
+			if old, ok := saved[g.Var]; ok {
+				s.vars[g.Var] = old
+			} else {
+				delete(s.vars, g.Var)
+			}
+		}
+	}()
 	// ensures
 	savedEntry := x.entry
 	x.entry = pre
@@ -1125,13 +1145,15 @@ func (x *Exec) quantifier(s *State, fr *Frame, kind string, call *ast.CallExpr) 
 	if !ok || len(rs.Results) != 1 {
 		unsup("quantifier body must be a single return")
 	}
-	x.spec++
-	x.noObl++
 	qs := s.fork()
 	qnp, qnf := len(qs.pc), len(qs.facts)
-	body := x.cond(qs, fr, rs.Results[0])
-	x.spec--
-	x.noObl--
+	body := func() Term {
+		// (restored by defer: an unsupported construct in the body unwinds through here)
+		x.spec++
+		x.noObl++
+		defer func() { x.spec--; x.noObl-- }()
+		return x.cond(qs, fr, rs.Results[0])
+	}()
 	_ = bounds
 	var bts []Term
 	for _, o := range objs {
